@@ -20,7 +20,7 @@ class C01(FullCheck):
           'timed out; distinct by (stack, #endpoints, balancer, open mode, outcome multiset, race classes)')
   REQUIRED_CLASSES = ('thrift', 'mux', 'issued-before-open', 'reply-before-timer', 'timer-before-reply',
                       'reply:near-deadline', 'reply:late', 'reply:never', 'server-down', 'leave', 'boundary',
-                      'io-fault:recv', 'io-fault:send', 'cpu-hog')
+                      'io-fault:recv', 'io-fault:send', 'cpu-hog', 'reply:undecodable', 'unserialisable-argument')
   ASSUMPTIONS = ('deadline = issue time + T on the virtual clock; rounded up to the 10 ms grid in exact '
                  'rationals, 2 us float tolerance; no timer lateness injected',)
 
